@@ -16,10 +16,31 @@ CFG = {
         "Swat4.C13.final_failure_marks",
         "Swat4.C13.success_marks",
         "Swat4.C13.update_applies_to_latest",
-        "Swat4.C13.probe_success_shape",
-        "Swat4.C13.retry_requeue",
         "Swat4.C13.budget",
         "Swat4.C13.expFloor_values",
+        "Swat4.C13.expFloor_matches_go",
+        "Swat4.C13.expFloor_brackets_exp",
+        "Swat4.C13.probe_retry_run",
+        "Swat4.C13.probe_failure_run",
+        "Swat4.C13.probe_success_run",
+        "Swat4.C13.probe_missing_run",
+        "Swat4.C13.probe_retry_race",
+        "Swat4.C13.probe_failure_race",
+        "Swat4.C13.probe_success_race",
+        "Swat4.C13.probe_retry_race_removed",
+        "Swat4.C13.keepalive_survives_probe_retry",
+        "Swat4.C13.handleSuccess_fields",
+        "Swat4.C13.handleRetry_only_status",
+        "Swat4.C13.handleFailure_only_status",
+        "Swat4.C13.aba_overwrites_fresh_registration",
+        "Swat4.C13.aba_witness",
+        "Swat4.C13.renew_conflict_refreshes_latest",
+        "Swat4.C13.retry_mark_survives_keepalive",
+        "Swat4.C13.report_conflict_applies_to_latest",
+        "Swat4.C13.report_conflict_on_first_registration",
+        "Swat4.C13.discover_conflict_refuses_when_marked",
+        "Swat4.C13.discover_conflict_marks_latest",
+        "Swat4.C13.discover_refuses_after_port_success",
         "Swat4.C13.C13_retry_after_concurrent_commit",
         "Swat4.C13.C13_failure_after_concurrent_commit",
         "Swat4.C13.C13_success_after_concurrent_commit",
@@ -36,18 +57,31 @@ CFG = {
     "assumptions": [
         "each repository call is atomic at its commit (C09) — interleavings are generated at call granularity",
         "the network result of a probe is an input (scripted prober wrapping the real prober's Handle* methods)",
-        "floor(e^n) for n <= 20 is a table in the model; it is tied to Go's math.Exp only by the correspondence run (retry ready times in the queue dump)",
-        "versions are monotone while a record is not removed (update_applies_to_latest hypothesis `hmono`); remove + re-add restarts the counter (ABA), outside the property's quantifier",
+        "floor(e^n) for n <= 20 is a table in the model; it is tied to Go's math.Exp by the regenerated fact c13retry (harness/internal/c13/facts.go: "
+        "the source text of `retryDelay := ...` in probeserver.retry, and int64(time.Duration(math.Exp(float64(n)))) / the full delay in ns computed by Go "
+        "for n = 0..20; theorem expFloor_matches_go) and, for n <= 5, to the real number e^n by expFloor_brackets_exp (Mathlib bounds on e); "
+        "math.Exp is evaluated on the machine that runs the check (amd64/arm64 assembly or pure Go give the same truncated values for these arguments)",
+        "versions are monotone while a record is not removed (hypothesis `hmono` of update_applies_to_latest and of the *_race theorems); remove + re-add restarts "
+        "the counter (ABA), outside the property's quantifier: there the model - and servers.go:143 `existing.Version > svr.Version`, which behaves the same - "
+        "stores the transformation of the STALE copy over the fresh registration (aba_overwrites_fresh_registration, aba_witness)",
+        "run-level theorems assume the store invariant that a record is stored under its own address key (`haddr`)",
     ],
     "trusted_base": COMMON_TRUSTED,
     "manifest": {
         "text": "Lean theorems: outcome_table (all 512 x 2 x 3 cases by kernel evaluation against a per-bit declarative spec), transient_never_delists, "
                 "update_applies_to_latest (Update(f stale, resolver f) stores f(latest) at version+1 whenever versions are monotone) and its three "
-                "instances for retry / final failure / success, retry_requeue (retries+1 <= max, ready = now + floor(e^retries) s, same addr/port/goal/max, "
-                "no expiry, enqueue before mark), budget (retries = max: no re-queue, failure transformation). Tied to probeserver.go and the probers by the "
+                "instances for retry / final failure / success; run-level, as equations on the whole result state of the executed use case: "
+                "probe_retry_run / probe_failure_run / probe_success_run / probe_missing_run (sequential run) and probe_*_race (Get, one arbitrary "
+                "committed call of another client, rest of the run): stored record = the outcome's transformation of the LATEST record one version up, "
+                "queue = old queue plus exactly the same probe with retries+1 ready at now + floor(e^(retries+1)) s without expiry (retry only), "
+                "nothing else changed; handleSuccess_fields / handleRetry_only_status / handleFailure_only_status (field level); budget (retries = max: "
+                "no re-queue, failure transformation); expFloor_matches_go (table = Go's math.Exp expression, regenerated fact) and expFloor_brackets_exp "
+                "(= floor of the real e^n, n <= 5); the conflict callbacks of the other use cases on the same history (renew_conflict_refreshes_latest, "
+                "report_conflict_applies_to_latest, discover_conflict_refuses_when_marked / _marks_latest); aba_overwrites_fresh_registration: across "
+                "remove + re-add the stale copy overwrites the fresh registration (model and servers.go alike). Tied to probeserver.go and the probers by the "
                 "exhaustive table run on the real probers and by call-granularity interleavings of the real use case with one concurrent commit.",
         "level_note": "Trusted: Lean kernel (propext, Quot.sound, Classical.choice); atomicity of repository calls (C09/C11 theorems about the Redis-level model); "
-                      "the scripted prober; the expFloor table vs math.Exp by differential run only; Prog model of probeserver validated by the correspondence run.",
+                      "the scripted prober; the expFloor table vs math.Exp by a regenerated fact (Go evaluates its own expression at check time) and the differential run; Prog model of probeserver validated by the correspondence run.",
         "technique": "Lean 4 proof (exhaustive kernel-decided table + refinement lemma on the versioned map) + differential correspondence under a controlled scheduler",
         "design_ref": "DESIGN.md §5 C13",
     },
